@@ -24,7 +24,7 @@ ASSUMPTIONS = [
 ]
 SHARDS = {"quick": 1, "thorough": 16}
 
-SPECIAL_STRS = ["02134", "007", "0", "18", "-3", "+5", "1e5", "1E3", "inf", "-inf", "Infinity", "nan", "NaN", "0x10", "1_000", " 12 ",
+SPECIAL_STRS = ["Washington, DC", "a,b", ", ", ",", "x, y)", "(1, 2)", "1, 2", "1", "2.0", "02134", "007", "0", "18", "-3", "+5", "1e5", "1E3", "inf", "-inf", "Infinity", "nan", "NaN", "0x10", "1_000", " 12 ",
                 ".5", "5.", "1.0", "3.14", "9007199254740993", "True", "False", "None", "", " ", "it's", 'say "hi"', "C:\\temp",
                 "C:\\new", "a\\\\b", "\\x41", "\\", "a\\", "\\'", "tab\there", "//", "/* x */", "a//b", "é", "日本", "١٢", "٣", "ß",
                 "A", "a b", "'+str(1)+'", "{0}", "%s", "x" * 200, "\\u0041", "\\N{BULLET}", "0.1", "1e-5", "00", "-0", "0e0", "1.",
